@@ -102,20 +102,6 @@ theorem rb_reset (cap size : Nat) (hs : size < 2^62) :
   refine ⟨?_, by omega, by omega⟩
   by_cases h : cap < 765 + size <;> simp [h] <;> omega
 
-/-- `oldsize := cap(b.buf) - reservedbuf`, with the hidden part of `b.buf` (between its length and its capacity) as a
-parameter: whatever it holds, `oldsize` is the capacity less the reserved section, and the grow decision taken on it is the
-model's `b.arr.length < reservedbuf + size` for the backing array `arr = buf ++ tail` -/
-theorem rb_oldsize (buf tail : List Nat) (size : Nat) (hc : buf.length + tail.length < 2^62) (hs : size < 2^62) :
-    (Reset_oldsize buf tail).oldsize = ((buf ++ tail).length : Int) - (Go.readbuffer.reservedbuf : Int) ∧
-    Reset_grow (Reset_oldsize buf tail).oldsize size = decide ((buf ++ tail).length < Fit.Gen.Reader.reservedbuf + size) := by
-  have e : (Reset_oldsize buf tail).oldsize = ((buf ++ tail).length : Int) - (Go.readbuffer.reservedbuf : Int) := by
-    simp only [Reset_oldsize, id_run, id_pure, id_bind, Go.capOf, Go.readbuffer.reservedbuf, List.length_append]
-    unfold Go.wrapI
-    omega
-  refine ⟨e, ?_⟩
-  rw [e]
-  exact (rb_reset (buf ++ tail).length size hs).1
-
 /-! ### the step function re-assembled from the translated pieces -/
 
 theorem readAtLeast_none_len (cap min : Nat) (s s' : Sched) (d : Bytes) (h : readAtLeast cap min s = (d, none, s')) :
